@@ -7,6 +7,7 @@ import (
 	"strings"
 	"time"
 
+	"github.com/massnetorg/mass-core/wire"
 	mwdb "massnet.org/mass-wallet/masswallet/db"
 	"massnet.org/mass-wallet/masswallet/keystore"
 	"verifharness/internal/dbwrap"
@@ -27,6 +28,7 @@ type Run struct {
 	Stale  bool
 	nq     int
 	Restarts int
+	TipBefore wire.Hash // stored tip found by the last Open before Start ran
 }
 
 func (r *Run) emit(f string, a ...interface{}) { r.Lines = append(r.Lines, fmt.Sprintf(f, a...)) }
@@ -105,7 +107,7 @@ func (r *Run) Open(ctl *dbwrap.Ctl) (ok bool, syncedBefore uint64, err error) {
 			return
 		}
 		r.W = w
-		syncedBefore, err = w.WM.SyncedTo()
+		syncedBefore, r.TipBefore, err = r.storedTip()
 		if err != nil {
 			return
 		}
